@@ -93,7 +93,7 @@ func (m *mWorld) setKeys(keys []cfgKey) {
 	for _, k := range keys {
 		r, ok1, ex1 := permFromWord(k.R)
 		w, ok2, ex2 := permFromWord(k.W)
-		if !ok1 || !ok2 {
+		if !ok1 || !ok2 || k.Invalid {
 			continue // an entry with an undocumented permission word is not a configured key
 		}
 		m.Keys[k.Key] = &mKey{Tok: mtoken{r, w}, Expires: k.Expires, HasExp: k.HasExp, Flapping: !(ex1 && ex2)}
